@@ -24,12 +24,16 @@ pub enum Op {
     Inc { key: String, by: i32 },
     GetSafe { key: String },
     Remove { key: String },
+    /// `snapshot <reclaim>` + background snapshot run to completion (sequential scenario only):
+    /// turns keys into persisted ones, so a later remove leaves a tombstone
+    Snap { reclaim: bool },
 }
 
 impl Op {
     pub fn key(&self) -> &str {
         match self {
             Op::Set { key, .. } | Op::SetSafe { key, .. } | Op::Inc { key, .. } | Op::GetSafe { key } | Op::Remove { key } => key,
+            Op::Snap { .. } => "",
         }
     }
     pub fn kind(&self) -> &'static str {
@@ -39,6 +43,7 @@ impl Op {
             Op::Inc { .. } => "increment",
             Op::GetSafe { .. } => "get-safe",
             Op::Remove { .. } => "remove",
+            Op::Snap { .. } => "snapshot",
         }
     }
     fn line(&self, cur: Option<i32>) -> String {
@@ -54,6 +59,7 @@ impl Op {
             Op::Inc { key, by } => format!("increment {} {}", key, by),
             Op::GetSafe { key } => format!("get-safe {}", key),
             Op::Remove { key } => format!("remove {}", key),
+            Op::Snap { reclaim } => format!("snapshot {}", reclaim),
         }
     }
 }
@@ -76,7 +82,8 @@ fn gen_sequential(rng: &mut Rng) -> Program {
         let key = KEYS[rng.below(2) as usize].to_string();
         uniq += 1;
         let val = if rng.chance(1, 4) { format!("{}", rng.range(0, 50)) } else { format!("v{}", uniq) };
-        let op = match rng.below(10) {
+        let op = match rng.below(11) {
+            10 => Op::Snap { reclaim: rng.chance(1, 3) },
             0 | 1 => Op::Set { key, val },
             2..=5 => {
                 let ver = match rng.below(6) {
@@ -209,7 +216,7 @@ fn execute(prog: Program, sequential: bool) -> Outcome {
     out.setup_ok = true;
 
     if sequential {
-        out.seq_violations = run_sequential(&mut admin, &prog.clients[0]);
+        out.seq_violations = run_sequential(&w, &mut admin, &prog.clients[0]);
         return out;
     }
 
@@ -249,7 +256,7 @@ fn execute(prog: Program, sequential: bool) -> Outcome {
 }
 
 /// Sequential rules from the statement, checked op by op with a get-safe before and after.
-fn run_sequential(s: &mut Session, ops: &[Op]) -> Vec<Violation> {
+fn run_sequential(w: &World, s: &mut Session, ops: &[Op]) -> Vec<Violation> {
     let mut viols = Vec::new();
     // per key: (exists, max version in this incarnation)
     let mut maxv: std::collections::BTreeMap<String, Option<i32>> = Default::default();
@@ -257,6 +264,14 @@ fn run_sequential(s: &mut Session, ops: &[Op]) -> Vec<Violation> {
         s.exec("keys").msgs.iter().any(|m| m.trim_end().trim_start_matches("keys ").split(',').any(|x| x == k))
     };
     for op in ops {
+        if let Op::Snap { .. } = op {
+            s.exec(&op.line(None));
+            if !w.declutter_tick(0, 10_000) {
+                viols.push(Violation::new("snapshot-stuck", "snapshot", "background snapshot did not finish"));
+                break;
+            }
+            continue;
+        }
         let key = op.key().to_string();
         let before_present = present(s, &key);
         let before = parse_value_version(&s.exec(&format!("get-safe {}", key)).msgs);
@@ -273,7 +288,7 @@ fn run_sequential(s: &mut Session, ops: &[Op]) -> Vec<Violation> {
             *entry = Some(bver);
         }
         match op {
-            Op::GetSafe { .. } => {}
+            Op::GetSafe { .. } | Op::Snap { .. } => {}
             Op::Remove { .. } => {
                 if after_present {
                     viols.push(Violation::new("remove-ineffective", "remove", format!("`{}` left the key listed", line)));
@@ -388,6 +403,7 @@ fn apply(st: &KeyState, r: &Rec, produced: &std::collections::HashMap<String, i3
     let ok = !r.resp.is_err();
     let mut s = st.clone();
     match &r.op {
+        Op::Snap { .. } => Some(s),
         Op::GetSafe { .. } => {
             let (ver, val) = parse_value_version(&r.msgs)?;
             if st.exists {
